@@ -550,7 +550,10 @@ def oracle(res, progs, r, tier):
             except Exception as e:   # noqa
                 res.add_violation('c05-minify-raises', 'minify raised %s' % type(e).__name__, {'source': p, 'options': O})
                 continue
-            a, b = canon(tree, O, shadowed), canon(otree, O, shadowed)
+            # "un-shadowed" is judged on the tree the bracket transform saw: the blocks other enabled options removed (a star import or an
+            # eval() inside a removed `if __debug__:`) no longer count, so dynamic shadowing is read off the OUTPUT
+            shadowed_o = shadowed if not may_be_shadowed_dynamically(tree) else bound_names(otree)
+            a, b = canon(tree, O, shadowed_o), canon(otree, O, shadowed_o)
             if a != b:
                 res.add_violation('c05-undocumented-rewrite:' + diff_kind(tree, otree, O), 'output differs from the input by more than the documented rewrites of the enabled options', {'source': p, 'options': O, 'output': out})
                 continue
